@@ -118,7 +118,19 @@ def do_write(ctx, g, sh, start, data, tag):
     ctx.feature('regions_spanned_%d' % spans)
     must_reject = start + n > DATA_END
     try:
-        g.write_cart_data(data, start)
+        # the data is a byte string in any of the usual guises; the address is given by position, by keyword, or left out when it is 0
+        k = (start + n) % 6
+        arg = (bytes(data), bytearray(data), memoryview(bytes(data)))[k % 3]
+        ctx.feature('data_type:' + type(arg).__name__)
+        if start == 0 and k >= 3:
+            g.write_cart_data(arg)
+            ctx.feature('address_argument:left_out')
+        elif k >= 3:
+            g.write_cart_data(arg, start_addr=start)
+            ctx.feature('address_argument:keyword')
+        else:
+            g.write_cart_data(arg, start)
+            ctx.feature('address_argument:positional')
         raised = None
     except Exception as e:
         raised = e
@@ -394,6 +406,9 @@ def gates(m, tier):
             missed.append('no write spanning %d regions' % k)
     if min(f.get('rejected_data:' + k, 0) for k in ('random', 'zeros', 'zero_overrun', 'own_bytes')) < 20:
         missed.append('rejected writes by kind of data: %s' % {k: f.get('rejected_data:' + k, 0) for k in ('random', 'zeros', 'zero_overrun', 'own_bytes')})
+    for k in ('data_type:bytes', 'data_type:bytearray', 'data_type:memoryview', 'address_argument:positional', 'address_argument:keyword', 'address_argument:left_out'):
+        if f.get(k, 0) < (5 if k.endswith('left_out') else 20):
+            missed.append('%s: %d writes' % (k, f.get(k, 0)))
     if f.get('cart_with_label', 0) < 500 or f.get('cart_without_label', 0) < 200:
         missed.append('writes to carts with a label %d, without %d' % (f.get('cart_with_label', 0), f.get('cart_without_label', 0)))
     if mon.get('saved_carts_compared', 0) < 20:
